@@ -685,4 +685,229 @@ theorem rinv_run {s : St} (h : RInv s) (ops : List Op) : RInv (run s ops) := by
   | nil => exact h
   | cons op ops ih => exact ih (rinv_step h op)
 
+/-! ### a blocked task stays blocked until the agent reads -/
+
+section busy
+local macro "fld" : tactic => `(tactic| (first | rfl | (split <;> first | rfl | (split <;> first | rfl | (split <;> rfl)))))
+
+@[simp] theorem rBusy_addLink (s : St) (l r : Nat) : (addLink s l r).rBusy = s.rBusy := by unfold addLink; fld
+@[simp] theorem rBusy_dropRemote (s : St) (r : Nat) : (dropRemote s r).rBusy = s.rBusy := by unfold dropRemote; fld
+@[simp] theorem rBusy_writeReset (s : St)  : (writeReset s ).rBusy = s.rBusy := by unfold writeReset; fld
+@[simp] theorem rBusy_writeRescind (s : St)  : (writeRescind s ).rBusy = s.rBusy := by unfold writeRescind; fld
+@[simp] theorem rBusy_httpRearm (s : St)  : (httpRearm s ).rBusy = s.rBusy := by unfold httpRearm; fld
+@[simp] theorem rBusy_setHFill (s : St) (n : Nat) : (setHFill s n).rBusy = s.rBusy := by unfold setHFill; fld
+@[simp] theorem rBusy_httpBlock (s : St)  : (httpBlock s ).rBusy = s.rBusy := by unfold httpBlock; fld
+@[simp] theorem rBusy_httpUnblock (s : St)  : (httpUnblock s ).rBusy = s.rBusy := by unfold httpUnblock; fld
+@[simp] theorem rBusy_fireRead (s : St)  : (fireRead s ).rBusy = s.rBusy := by unfold fireRead; fld
+@[simp] theorem rBusy_fireWrite (s : St)  : (fireWrite s ).rBusy = s.rBusy := by unfold fireWrite; fld
+@[simp] theorem rBusy_fireHttp (s : St)  : (fireHttp s ).rBusy = s.rBusy := by unfold fireHttp; fld
+@[simp] theorem rBusy_settle (s : St)  : (settle s ).rBusy = s.rBusy := by unfold settle; fld
+@[simp] theorem rBusy_setNow (s : St) (t : Nat) : (setNow s t).rBusy = s.rBusy := by unfold setNow; fld
+@[simp] theorem rBusy_httpRescind (s : St) : (httpRescind s).1.rBusy = s.rBusy := by unfold httpRescind; fld
+@[simp] theorem rBusy_writeAct (s : St) : (writeAct s).rBusy = s.rBusy := by simp [writeAct]
+@[simp] theorem rBusy_setLq (s : St) (l : Nat) (q : List Frame) : (setLq s l q).rBusy = s.rBusy := by unfold setLq; fld
+@[simp] theorem rBusy_foldDrop (rs : List Nat) (s : St) : (rs.foldl dropRemote s).rBusy = s.rBusy := by
+  induction rs generalizing s with
+  | nil => rfl
+  | cons r rs ih => simp [List.foldl, ih]
+@[simp] theorem rBusy_fire (s : St) (t : Task) : (fire s t).rBusy = s.rBusy := by cases t <;> simp [fire]
+@[simp] theorem busyLane_addLink (s : St) (l r : Nat) : (addLink s l r).busyLane = s.busyLane := by unfold addLink; fld
+@[simp] theorem busyLane_dropRemote (s : St) (r : Nat) : (dropRemote s r).busyLane = s.busyLane := by unfold dropRemote; fld
+@[simp] theorem busyLane_writeReset (s : St)  : (writeReset s ).busyLane = s.busyLane := by unfold writeReset; fld
+@[simp] theorem busyLane_writeRescind (s : St)  : (writeRescind s ).busyLane = s.busyLane := by unfold writeRescind; fld
+@[simp] theorem busyLane_httpRearm (s : St)  : (httpRearm s ).busyLane = s.busyLane := by unfold httpRearm; fld
+@[simp] theorem busyLane_setHFill (s : St) (n : Nat) : (setHFill s n).busyLane = s.busyLane := by unfold setHFill; fld
+@[simp] theorem busyLane_httpBlock (s : St)  : (httpBlock s ).busyLane = s.busyLane := by unfold httpBlock; fld
+@[simp] theorem busyLane_httpUnblock (s : St)  : (httpUnblock s ).busyLane = s.busyLane := by unfold httpUnblock; fld
+@[simp] theorem busyLane_fireRead (s : St)  : (fireRead s ).busyLane = s.busyLane := by unfold fireRead; fld
+@[simp] theorem busyLane_fireWrite (s : St)  : (fireWrite s ).busyLane = s.busyLane := by unfold fireWrite; fld
+@[simp] theorem busyLane_fireHttp (s : St)  : (fireHttp s ).busyLane = s.busyLane := by unfold fireHttp; fld
+@[simp] theorem busyLane_settle (s : St)  : (settle s ).busyLane = s.busyLane := by unfold settle; fld
+@[simp] theorem busyLane_setNow (s : St) (t : Nat) : (setNow s t).busyLane = s.busyLane := by unfold setNow; fld
+@[simp] theorem busyLane_httpRescind (s : St) : (httpRescind s).1.busyLane = s.busyLane := by unfold httpRescind; fld
+@[simp] theorem busyLane_writeAct (s : St) : (writeAct s).busyLane = s.busyLane := by simp [writeAct]
+@[simp] theorem busyLane_setLq (s : St) (l : Nat) (q : List Frame) : (setLq s l q).busyLane = s.busyLane := by unfold setLq; fld
+@[simp] theorem busyLane_foldDrop (rs : List Nat) (s : St) : (rs.foldl dropRemote s).busyLane = s.busyLane := by
+  induction rs generalizing s with
+  | nil => rfl
+  | cons r rs ih => simp [List.foldl, ih]
+@[simp] theorem busyLane_fire (s : St) (t : Task) : (fire s t).busyLane = s.busyLane := by cases t <;> simp [fire]
+
+theorem hBusy_advLoop (fuel target : Nat) (s : St) : (advLoop fuel target s).hBusy = s.hBusy := by
+  induction fuel generalizing s with
+  | zero => unfold advLoop; split <;> simp
+  | succ fuel ih =>
+    unfold advLoop
+    split
+    · rfl
+    · split
+      · simp
+      · rw [ih]; simp
+
+theorem rBusy_advLoop (fuel target : Nat) (s : St) :
+    (advLoop fuel target s).rBusy = s.rBusy ∧ (advLoop fuel target s).busyLane = s.busyLane := by
+  induction fuel generalizing s with
+  | zero => unfold advLoop; split <;> simp
+  | succ fuel ih =>
+    unfold advLoop
+    split
+    · exact ⟨rfl, rfl⟩
+    · split
+      · simp
+      · rw [(ih _).1, (ih _).2]; simp
+
+theorem hBusy_step {s : St} (hb : s.hBusy = true) {op : Op} (hop : op ≠ .httpread) : (step s op).1.hBusy = true := by
+  unfold step
+  split
+  · exact hb
+  · rw [hBusy_settle]
+    cases op with
+    | httpread => exact absurd rfl hop
+    | adv k => simp only [step0]; rw [hBusy_advLoop]; exact hb
+    | http known => simp [step0, hb]
+    | link r l => simp only [step0, envelope]; (repeat' split) <;> simp [hb]
+    | unlink r l => simp only [step0, envelope]; (repeat' split) <;> simp [hb]
+    | sync r l => simp only [step0, envelope]; (repeat' split) <;> simp [hb]
+    | cmd r l => simp only [step0, envelope]; (repeat' split) <;> simp [hb]
+    | _ => simp only [step0] <;> (repeat' split) <;> simp [hb]
+
+theorem hBusy_run {s : St} (hb : s.hBusy = true) (ops : List Op) (hops : ∀ op, op ∈ ops → op ≠ .httpread) :
+    (run s ops).hBusy = true := by
+  induction ops generalizing s with
+  | nil => exact hb
+  | cons op ops ih =>
+    exact ih (hBusy_step hb (hops op List.mem_cons_self)) (fun o ho => hops o (List.mem_cons_of_mem _ ho))
+
+theorem rBusy_step {s : St} (hb : s.rBusy = true) {op : Op} (hop : op ≠ .take s.busyLane) :
+    (step s op).1.rBusy = true ∧ (step s op).1.busyLane = s.busyLane := by
+  unfold step
+  split
+  · exact ⟨hb, rfl⟩
+  · rw [rBusy_settle, busyLane_settle]
+    cases op with
+    | adv k => simp only [step0]; rw [(rBusy_advLoop _ _ s).1, (rBusy_advLoop _ _ s).2]; exact ⟨hb, rfl⟩
+    | take l =>
+      have hl : ¬ (s.busyLane = l) := fun e => hop (e ▸ rfl)
+      simp only [step0]
+      split
+      · exact ⟨hb, rfl⟩
+      · simp [hb, hl]
+    | attach r => simp [step0, hb]
+    | detach r => simp [step0, canSend, hb]
+    | link r l => simp [step0, envelope, canSend, hb]
+    | unlink r l => simp [step0, envelope, canSend, hb]
+    | sync r l => simp [step0, envelope, canSend, hb]
+    | cmd r l => simp [step0, envelope, canSend, hb]
+    | _ => simp only [step0] <;> (repeat' split) <;> simp [hb]
+
+theorem rBusy_run {s : St} (hb : s.rBusy = true) (ops : List Op) (hops : ∀ op, op ∈ ops → op ≠ .take s.busyLane) :
+    (run s ops).rBusy = true := by
+  induction ops generalizing s with
+  | nil => exact hb
+  | cons op ops ih =>
+    have h1 := rBusy_step hb (hops op List.mem_cons_self)
+    exact ih h1.1 (fun o ho => by rw [h1.2]; exact hops o (List.mem_cons_of_mem _ ho))
+
+theorem run_app (s : St) (a b : List Op) : run s (a ++ b) = run (run s a) b := by
+  simp [run, List.foldl_append]
+
+end busy
+
+/-- the timeout is a constant of the run -/
+theorem T_run : ∀ (s : St) (ops : List Op), (run s ops).T = s.T := by
+  intro s ops
+  have hstep : ∀ (s : St) (op : Op), (step s op).1.T = s.T := by
+    intro s op
+    -- `T` is never written: follow the definitions
+    unfold step
+    split
+    · rfl
+    · have hset : ∀ x : St, (settle x).T = x.T := by intro x; unfold settle; split; rfl; split <;> rfl
+      rw [hset]
+      have hadv : ∀ fuel target (x : St), (advLoop fuel target x).T = x.T := by
+        intro fuel target
+        induction fuel with
+        | zero => intro x; unfold advLoop; split <;> rfl
+        | succ fuel ih =>
+          intro x; unfold advLoop
+          split
+          · rfl
+          · split
+            · rfl
+            · rename_i t _
+              rw [ih, hset]
+              cases t <;> simp only [fire]
+              · unfold fireHttp; split <;> rfl
+              · rfl
+              · unfold fireWrite; split <;> rfl
+      have hwa : ∀ x : St, (writeAct x).T = x.T := by
+        intro x; unfold writeAct writeRescind; split
+        · split <;> rfl
+        · rfl
+      have hfd : ∀ (rs : List Nat) (x : St), (rs.foldl dropRemote x).T = x.T := by
+        intro rs; induction rs with
+        | nil => intro x; rfl
+        | cons r rs ih => intro x; simp only [List.foldl]; rw [ih]; rfl
+      have hlq : ∀ (x : St) l q, (setLq x l q).T = x.T := by intro x l q; unfold setLq; split <;> rfl
+      have hrr : ∀ x : St, (readRescind x).1.T = x.T := by
+        intro x; unfold readRescind; split
+        · split <;> rfl
+        · rfl
+      have hhr : ∀ x : St, (httpRescind x).1.T = x.T := by
+        intro x; unfold httpRescind; split
+        · split <;> rfl
+        · rfl
+      have hfeed : ∀ (x : St) l f, (feed x l f).T = x.T := by
+        intro x l f; unfold feed; split
+        · show (setLq x l [f]).T = x.T; exact hlq _ _ _
+        · show (setLq x l (lq x l ++ [f])).T = x.T; exact hlq _ _ _
+      have hdisp : ∀ (x : St) (o : Op), (dispatch x o).T = x.T := by
+        intro x o
+        cases o <;> simp only [dispatch] <;> (repeat' split) <;>
+          first
+          | rfl
+          | exact hfeed _ _ _
+          | (show (writeAct _).T = _; rw [hwa]; rfl)
+          | (show (writeAct _).T = _; rw [hwa])
+      have henv : ∀ (x : St) r (o : Op), (envelope x r o).1.T = x.T := by
+        intro x r o; unfold envelope
+        split
+        · split
+          · exact hrr x
+          · show (dispatch _ o).T = x.T; rw [hdisp, hrr]
+        · rfl
+      cases op with
+      | adv k => exact hadv _ _ _
+      | link r l => exact henv _ _ _
+      | unlink r l => exact henv _ _ _
+      | sync r l => exact henv _ _ _
+      | cmd r l => exact henv _ _ _
+      | ev l => simp only [step0]; rw [hfd, hwa]
+      | synced l r =>
+        simp only [step0]; split
+        · split
+          · show (writeAct s).T = s.T; exact hwa s
+          · show (writeAct s).T = s.T; exact hwa s
+        · exact hwa s
+      | take l =>
+        simp only [step0]; split
+        · rfl
+        · split
+          · show (setLq s l _).T = s.T; exact hlq _ _ _
+          · exact hlq _ _ _
+      | http known =>
+        simp only [step0]; split
+        · rfl
+        · split
+          · exact hhr s
+          · split
+            · split
+              · show (httpRescind s).1.T = s.T; exact hhr s
+              · show (httpRescind s).1.T = s.T; exact hhr s
+            · show (httpRescind s).1.T = s.T; exact hhr s
+      | _ => simp only [step0] <;> (repeat' split) <;> rfl
+  induction ops generalizing s with
+  | nil => rfl
+  | cons op ops ih => simp only [run, List.foldl] at *; rw [ih, hstep]
+
 end SwimVerif.InactRt
